@@ -80,6 +80,11 @@ impl<T: Value> Observer<T> {
     pub fn try_get_value(&self) -> Result<T, ObserverError> {
         self.internal.try_get_value()
     }
+    /// verification hook
+    #[cfg(cormacrelf_incremental_rs_verif)]
+    pub(crate) fn verif_internal_state(&self) -> super::internal_observer::ObserverState {
+        self.internal.state.get()
+    }
     #[inline]
     pub fn value(&self) -> T {
         self.internal.try_get_value().unwrap()
